@@ -9,10 +9,12 @@ wit.native_witnesses = ["c01_wit_box_world_all_pairs", "c01_wit_edge_oriented_de
 bt = VerusUnit("c01_backtrack", "c01_backtrack", rlimit=60)
 eo = VerusUnit("c01_edge_oriented", "c01_edge_oriented", rlimit=60, paired_kani=(wit, []))
 sv = VerusUnit("c13_single_via", "c13_single_via", rlimit=60, paired_kani=(wit, []))
-UNITS = [al, bt, eo, sv, wit]
+dp = VerusUnit("c01_dispatch", "c01_dispatch", rlimit=60)
+UNITS = [al, bt, eo, dp, sv, wit]
 EXPLANATION = ("run_a_star / advance_search / get_last_traversed_edge_id / Direction::{tree_key_vertex_id, terminal_vertex_id} extracted verbatim; "
                "loop invariants TW (entry edge joins parent to entry in the search direction), DOM, POT (labels strictly decrease along parents) "
                "verified for every graph, direction and model configuration satisfying the assumed callee contracts; no-revisit lemma; "
                "single-via alternatives (unit c13_single_via): every returned alternative is a forward-tree route to a via vertex followed by the re-traversed reverse-tree route, and with TW of both trees it is a contiguous "
-               "source-to-target walk (lemma_via_route_is_walk); reorient_reverse_route reverses the edge order and keeps the ids (verified)")
-NOT_DECIDED = "termination of the search; Yen's driver as a route producer; SearchAlgorithm::run_vertex_oriented / run_edge_oriented dispatch beyond run_a_star_edge_oriented"
+               "source-to-target walk (lemma_via_route_is_walk); reorient_reverse_route reverses the edge order and keeps the ids (verified); "
+               "SearchAlgorithm::run_vertex_oriented (unit c01_dispatch, verbatim): a plain search hands back run_a_star's tree (search_post) and, with a destination, exactly one route, the backtrack of that tree (route_ok); lemma: it is a contiguous walk")
+NOT_DECIDED = "termination of the search; Yen's driver as a route producer; SearchAlgorithm::run_edge_oriented and the free fn run_edge_oriented (the edge-oriented wrappers around the k-shortest-path drivers)"
